@@ -166,18 +166,16 @@ def check(cx):
             okk = False
             why = "constant" if l is None else ""
             if l is not None:
-                cl = f.dep_closure(l)
-                srcs = {x.callee for x in f.calls() if op_local({"c": x.dst}) in cl and x.callee in ID_SOURCES}
-                # or a parameter of the enclosing function (the caller's duty), typed u64
-                params = {a for a in range(1, f.nargs + 1) if a in cl and f.locals[a] in ("u64",)}
-                okk = bool(srcs) or bool(params)
-                why = "from %s" % (sorted(srcs) or ["parameter _%d" % a for a in sorted(params)])
-                bad_src = {x.callee for x in f.calls() if op_local({"c": x.dst}) in cl and
-                           x.callee.rsplit("::", 1)[-1] in ("xmin", "xmax", "version_xmin", "global_xmin")
-                           and "tuple" in x.callee}
-                if bad_src and not srcs:
-                    okk = False
-                    why = "from the stored tuple: %s" % sorted(bad_src)
+                near = f.nearest_calls(l)
+                srcs = {x for k, x in near if k == "call"}
+                params = {x for k, x in near if k == "param" and f.locals[x] in ("u64",)}
+                consts = {x for k, x in near if k == "const"}
+                good_src = srcs & ID_SOURCES
+                bad_src = srcs - ID_SOURCES
+                okk = (bool(good_src) or bool(params)) and not bad_src and not consts
+                why = "from %s" % (sorted(good_src) or ["parameter _%d" % a for a in sorted(params)])
+                if bad_src or consts:
+                    why = "from %s" % sorted(bad_src | {"constant " + c for c in consts})
             cx.verdict(okk, r4, "%s@%s#%d" % (callee.rsplit("::", 1)[-1], f.id, [x.bb for x in f.calls() if x.callee == callee].index(c.bb)),
                        c.where(), why, "transaction id argument of %s comes %s" % (callee, why))
 
